@@ -27,14 +27,19 @@ MANIFEST = dict(
            "theorem; the schedule equals tables MEASURED by running /repo's random.c on every run; the variant that skips the "
            "start-up stir of a fully seeded pool is refuted) and the real callbacks are run from three initial conditions "
            "(seed file absent, complete, short, and the two sizes around RANDOM_BYTES_WANTED) over several "
-           "maximum-length intervals.",
+           "maximum-length intervals.  The clock arithmetic (src/munged/clock.c) is TRANSLATED FROM ITS C TEXT on every run "
+           "(tools/facts/clockfun.py -> gen/GenClockFun.v) and Properties_C18_clock.v proves that the model's time-stamp "
+           "order and deadline computation are those functions, that a deadline is exactly ms milliseconds after the reading "
+           "and a valid timespec, and that `expired` is exactly deadline <= now; /repo's clock.c (pinned clock_gettime) runs "
+           "on second-boundary readings against the translation and the model evaluated by vm_compute.",
            "7 C18"),
     note="Trusted: Coq kernel, gen_facts probe, extraction, harness/driver glue, the --wrap shims for clock_gettime "
          "and pthread_cond_{wait,timedwait,signal}; timer.c itself is modelled and tied by differential testing, not "
          "verified.  Ids are proved unique below LONG_MAX set operations (the code wraps to 1 after that).",
     technique="Coq proof (invariants over an LTS, runs as label lists) + extracted oracle + deterministic virtual-time "
               "harness on timer.c + property evaluated on the callback log + periodic-service run + gids.c and timer.c "
-              "linked together with scripted NSS failures and SIGHUPs inside refreshes")
+              "linked together with scripted NSS failures and SIGHUPs inside refreshes + clock.c translated from source "
+              "(C text -> Gallina) with equivalence theorems")
 
 WRAPS = "-Wl,--wrap=clock_gettime,--wrap=pthread_cond_wait,--wrap=pthread_cond_timedwait,--wrap=pthread_cond_signal"
 FINDING_KEY = "C18-set-returns-id-after-unlock"
